@@ -23,6 +23,9 @@ import (
 	"sync"
 	"time"
 
+	"github.com/AliceO2Group/Control/common/event/topic"
+	evpb "github.com/AliceO2Group/Control/common/protos"
+	"github.com/AliceO2Group/Control/core/the"
 	mesos "github.com/mesos/mesos-go/api/v1/lib"
 
 	"verif/harness/internal/c0203"
@@ -37,7 +40,8 @@ type Fault struct {
 }
 
 type Op struct {
-	Kind string   `json:"kind"`         // cmd | fault | cmdfault
+	Kind string   `json:"kind"`         // cmd | fault | cmdfault | race
+	Late string   `json:"late,omitempty"` // race: the state the overtaking late reply announces
 	Ev   string   `json:"ev,omitempty"` // CONFIGURE | START | STOP | RESET
 	Oc   []string `json:"oc,omitempty"` // ack | errsrc | errerr | sendfail, by task position
 	F    *Fault   `json:"f,omitempty"`
@@ -60,6 +64,7 @@ type StepObs struct {
 	Tasks    [][2]int `json:"tasks"`
 	Victims  []int    `json:"victims"` // computed by the harness: tasks the fault of this step hits
 	IsFault  bool     `json:"is_fault"`
+	Raced    bool     `json:"raced,omitempty"` // race: the first update was held at the hand-over
 	ErrText  string   `json:"err_text,omitempty"` // not compared
 }
 
@@ -151,6 +156,76 @@ func pathFor(in Input) func(name string, i int) string {
 		return fmt.Sprintf("%s.t%d", name, i)
 	}
 }
+
+// ---------------------------------------------------------------- holding a role update at the hand-over
+
+// roleGate is installed as the event writer of the role topic: taskRole.updateState publishes the
+// role's new state (Ev_RoleEvent) after it merged the value into its own cache and before it hands
+// it to its parent.  When armed for a role path it holds the goroutine that publishes "ERROR" for
+// that role until released, so that another update of the same task can run to its end in between.
+type roleGate struct {
+	mu      sync.Mutex
+	path    string
+	reached chan struct{}
+	release chan struct{}
+}
+
+func (g *roleGate) arm(path string) {
+	g.mu.Lock()
+	g.path, g.reached, g.release = path, make(chan struct{}), make(chan struct{})
+	g.mu.Unlock()
+}
+
+func (g *roleGate) open() {
+	g.mu.Lock()
+	if g.release != nil {
+		close(g.release)
+	}
+	g.path, g.release = "", nil
+	g.mu.Unlock()
+}
+
+func (g *roleGate) waitReached(d time.Duration) bool {
+	g.mu.Lock()
+	ch := g.reached
+	g.mu.Unlock()
+	if ch == nil {
+		return false
+	}
+	select {
+	case <-ch:
+		return true
+	case <-time.After(d):
+		return false
+	}
+}
+
+func (g *roleGate) WriteEvent(e interface{}) {
+	ev, ok := e.(*evpb.Ev_RoleEvent)
+	if !ok || ev.State != "ERROR" {
+		return
+	}
+	g.mu.Lock()
+	hit := g.path != "" && ev.RolePath == g.path && g.release != nil
+	var reached, release chan struct{}
+	if hit {
+		reached, release = g.reached, g.release
+		g.path = "" // once
+	}
+	g.mu.Unlock()
+	if !hit {
+		return
+	}
+	close(reached)
+	select {
+	case <-release:
+	case <-time.After(5 * time.Second):
+	}
+}
+func (g *roleGate) WriteEventWithTimestamp(e interface{}, _ time.Time) { g.WriteEvent(e) }
+func (g *roleGate) Close()                                             {}
+
+var gate = &roleGate{}
 
 // ---------------------------------------------------------------- running one case
 
@@ -427,6 +502,36 @@ func runCase(w *c0203.World, idx int, in Input) (obs []StepObs, wedged bool) {
 			so.Victims, so.IsFault = vs, true
 			c.settleFault(*op.F, vs)
 			c.waitAfterFault(c.anyCrit(vs) || op.F.Kind == "internal")
+		case "race":
+			f := *op.F
+			c.quiesce()
+			gate.arm(pathFor(in)(name, f.V))
+			vs := c.inject(f)
+			so.Victims, so.IsFault = vs, true
+			so.Raced = gate.waitReached(800 * time.Millisecond)
+			tid := c.taskId(f.V)
+			if so.Raced {
+				// the status update (a goroutine of its own) runs freely
+				waitFor(400*time.Millisecond, func() bool {
+					for _, t := range w.Sim.Taskman.VerifRoster() {
+						if t.TaskId == tid {
+							return t.Status == "INACTIVE"
+						}
+					}
+					return true
+				})
+				// the late reply of the same task, to its end: the role reports its state again
+				w.Sim.LateReply(tid, op.Late)
+				want := c0203.StateCode[op.Late]
+				ok := waitFor(800*time.Millisecond, func() bool { return env.RoleView()[f.V][0] == want })
+				if os.Getenv("H03_DEBUG") != "" {
+					fmt.Fprintf(os.Stderr, "race case %d: late reply %s applied=%v view=%v roster=%v\n", idx, op.Late, ok, env.RoleView(), w.Sim.Taskman.VerifRoster())
+				}
+				time.Sleep(6 * time.Millisecond) // the walk up and the watcher back in its select
+			}
+			gate.open()
+			time.Sleep(15 * time.Millisecond)
+			c.waitAfterFault(c.anyCrit(vs))
 		case "cmdfault":
 			var vs []int
 			injected := false
@@ -572,6 +677,15 @@ func caseTerm(in Input, obs []StepObs) string {
 		case "cmdfault":
 			ops[i] = fmt.Sprintf("SCmdFault %s %s %s", o.Ev, faultTerm(*o.F, victims(i+1, *o.F)), ocTerm(o.Oc))
 			kinds = append(kinds, kindCode[o.F.Kind])
+		case "race":
+			// held at the hand-over and overtaken: SRace; otherwise (role already in ERROR: no role
+			// event, nothing to hold) it was an ordinary idle fault
+			if i+1 >= len(obs) || obs[i+1].Raced {
+				ops[i] = fmt.Sprintf("SRace %d%%nat %s %s", o.F.V, o.Late, ocTerm(o.Oc))
+			} else {
+				ops[i] = fmt.Sprintf("SFault %s %s", faultTerm(*o.F, victims(i+1, *o.F)), ocTerm(o.Oc))
+			}
+			kinds = append(kinds, kindCode[o.F.Kind])
 		}
 	}
 	os := make([]string, len(obs))
@@ -693,10 +807,7 @@ func genCase(r *gen.Rand) (Input, string) {
 		v := g.pickVictim(r.Chance(3, 5))
 		f := Fault{Kind: kindsAll[r.Intn(6)], V: v}
 		in.Early = &f
-		if g.kill(f) && f.Kind != "internal" {
-			// the generator goes on: the environment stays CONFIGURED in the unchanged code (C03-a);
-			// should it go to ERROR the harness stops the script there
-		}
+		g.kill(f) // a critical victim: the environment goes to ERROR at once, the script is not reached
 	}
 	steps := r.Range(1, 5)
 	for s := 0; s < steps; s++ {
@@ -735,14 +846,21 @@ func genCase(r *gen.Rand) (Input, string) {
 				oc[v] = "errerr" // a device in ERROR refuses the STOP
 			}
 			in.Ops = append(in.Ops, Op{Kind: "fault", F: &f, Oc: oc})
-			crit := g.kill(f)
-			if f.Kind == "internal" && g.state == "RUNNING" {
-				if oc[v] == "ack" || !in.Tasks[v].Crit {
-					g.state = "CONFIGURED" // the handler's STOP_ACTIVITY (approximation; only steers the walk)
-				}
+			if g.kill(f) {
+				s = steps // a critical task failed: the environment goes to ERROR, the script ends
 			}
-			if crit && (f.Kind != "internal" || g.state == "RUNNING" || in.Tasks[v].Crit) && f.Kind != "internal" {
-				s = steps // a critical task is dead: the environment goes to ERROR, the script ends
+		case what == 8 && g.state != "": // a failure overtaken at the leaf by a late reply of the same task
+			v := g.pickVictim(r.Chance(2, 3))
+			if v < 0 {
+				continue
+			}
+			f := Fault{Kind: kindsAll[r.Intn(3)], V: v}
+			oc := acks(n)
+			oc[v] = "sendfail" // nothing can be delivered to the dead task
+			late := map[string]string{"CONFIGURED": "CONFIGURED", "RUNNING": "RUNNING", "DEPLOYED": "STANDBY"}[g.state]
+			in.Ops = append(in.Ops, Op{Kind: "race", F: &f, Late: late, Oc: oc})
+			if g.kill(f) {
+				s = steps
 			}
 		default: // fault inside a request
 			var ev string
@@ -762,7 +880,7 @@ func genCase(r *gen.Rand) (Input, string) {
 			in.Ops = append(in.Ops, Op{Kind: "cmdfault", Ev: ev, F: &f, Oc: acks(n)})
 			crit := g.kill(f)
 			g.state = map[string]string{"START": "RUNNING", "STOP": "CONFIGURED", "RESET": "DEPLOYED", "CONFIGURE": "CONFIGURED"}[ev]
-			if crit && f.Kind != "internal" {
+			if crit {
 				s = steps
 			}
 			anyAlive := false
@@ -789,6 +907,7 @@ func corpus() []job {
 	}
 	two := []c0203.Task{t(true, "direct", 1), t(false, "fairmq", 2)}
 	a2 := []string{"ack", "ack"}
+	// regression cases of the repaired findings (they were the witnesses of the refutation theorems)
 	// C03-a: the critical task dies inside an after_CONFIGURE hook of the creation
 	add("corpus-early-critical", Input{Tasks: two, Early: &Fault{"failed", 0}})
 	// C03-c: TASK_INTERNAL_ERROR of the non-critical task while RUNNING
@@ -809,6 +928,15 @@ func corpus() []job {
 		Ops: []Op{{Kind: "cmdfault", Ev: "START", F: &Fault{"failed", 0}, Oc: acks(3)}}})
 	add("corpus-race-stop-noncritical", Input{Tasks: []c0203.Task{t(true, "direct", 1), t(false, "fairmq", 2)},
 		Ops: []Op{{Kind: "cmd", Ev: "START", Oc: a2}, {Kind: "cmdfault", Ev: "STOP", F: &Fault{"executor", 1}, Oc: a2}}})
+	// the ERROR of the dying task is held at the hand-over to its parent role and overtaken by a late
+	// reply of the same task (seeded change C03-1: the role re-reads its cache instead of passing on
+	// what it was called with)
+	sf := func(n, v int) []string { oc := acks(n); oc[v] = "sendfail"; return oc }
+	add("corpus-overtaken-running-critical", Input{Tasks: two, Ops: []Op{{Kind: "cmd", Ev: "START", Oc: a2}, {Kind: "race", F: &Fault{"failed", 0}, Late: "RUNNING", Oc: sf(2, 0)}}})
+	add("corpus-overtaken-configured-critical", Input{Tasks: two, Ops: []Op{{Kind: "race", F: &Fault{"lost", 0}, Late: "CONFIGURED", Oc: sf(2, 0)}}})
+	add("corpus-overtaken-running-nested", Input{Tasks: []c0203.Task{t(true, "direct", 1), t(true, "fairmq", 2), t(false, "basic", 2)}, Groups: []int{1, 1, 0},
+		Ops: []Op{{Kind: "cmd", Ev: "START", Oc: acks(3)}, {Kind: "race", F: &Fault{"killed", 1}, Late: "RUNNING", Oc: sf(3, 1)}}})
+	add("corpus-overtaken-noncritical", Input{Tasks: two, Ops: []Op{{Kind: "cmd", Ev: "START", Oc: a2}, {Kind: "race", F: &Fault{"failed", 1}, Late: "RUNNING", Oc: sf(2, 1)}, {Kind: "cmd", Ev: "STOP", Oc: a2}}})
 	return js
 }
 
@@ -837,6 +965,7 @@ func childMain(inFile, outFile string, wid int) {
 		fmt.Fprintln(os.Stderr, "world:", err)
 		os.Exit(2)
 	}
+	the.VerifC02SetEventWriter(topic.Role, gate)
 	f, err := os.Create(outFile)
 	if err != nil {
 		fmt.Fprintln(os.Stderr, err)
@@ -992,7 +1121,9 @@ func main() {
 		for _, op := range j.In.Ops {
 			if op.F != nil {
 				faultKinds[op.F.Kind]++
-				if op.Kind == "fault" {
+				if op.Kind == "race" {
+					instants["idle-overtaken-at-the-leaf"]++
+				} else if op.Kind == "fault" {
 					instants["idle"]++
 				} else {
 					instants["inside-"+op.Ev]++
